@@ -330,10 +330,20 @@ func genPaced(t *rapid.T) relayCase {
 	c := relayCase{IdleMs: idle}
 	small := stream{Len: rapid.IntRange(0, 100).Draw(t, "small"), Chunks: []int{100}, GapUs: []int{0}, ReadSz: 4096}
 	long := stream{Len: 30 * 1024, Chunks: []int{1024}, GapUs: []int{100000}, ReadSz: 4096}
+	// silentOpen: the side that says little does not half-close either; it stays open and silent until it has seen the streaming
+	// side's EOF. Its direction then runs into the idle time-out, which ends that direction only (the proxy's own tests
+	// assert the per-direction cut-off): the stream in the other direction must still arrive completely.
+	silentOpen := rapid.Bool().Draw(t, "silentopen")
 	if rapid.Bool().Draw(t, "backendstreams") {
 		c.Conns = []connCase{{C2B: small, B2C: long, Close: "both-half"}}
+		if silentOpen {
+			c.Conns[0].Close = "backend-full-after-eof"
+		}
 	} else {
 		c.Conns = []connCase{{C2B: long, B2C: small, Close: "both-half"}}
+		if silentOpen {
+			c.Conns[0].Close = "client-full-after-eof"
+		}
 	}
 	return c
 }
@@ -396,6 +406,9 @@ func TestRelay(t *testing.T) {
 		}
 		if c.IdleMs > 0 {
 			vh.Rec().Class("relay", "one_direction_streams_longer_than_the_idle_timeout")
+			if len(c.Conns) == 1 && c.Conns[0].Close != "both-half" && c.IdleMs == 1200 {
+				vh.Rec().Class("relay", "silent_open_direction_runs_into_the_idle_timeout_while_the_other_streams")
+			}
 			if c.IdleMs == 4000 {
 				vh.Rec().Class("relay", "pause_of_0.85_idle_timeout_after_an_early_byte")
 			}
